@@ -20,6 +20,22 @@ def padding_classes():
     return {code2cls[c] for c in blfwalk.survey()['padding_types'] if c in code2cls}
 
 
+def big_tasks(tier, kinds):
+    """one payload container at a boundary length (257, 65537) - catches narrowing of length fields"""
+    pads = padding_classes()
+    out = []
+    for cls in codec.classes():
+        for k, path, ls in codec.big_lengths(cls):
+            for n in (ls if tier != 'quick' else ls[-1:]):
+                txt = '#define VP_BIG_IDX %d\n#define VP_BIG_LEN %d\n#define VP_BIG_CAP %d\n' % (k, n, 8 * n + 4096) + codec.gen(cls, maxlen=0)
+                out.append(Task('%s.h_big.%s.%d' % (cls, path, n), txt, 'h_big', codec.make_rt_judge(cls, pads),
+                                opts=dict(validate=False, max_steps=30000000, max_wall=600),
+                                desc='%s with %s of %d elements (first bytes symbolic), other containers empty, scalars symbolic: '
+                                     'write -> read' % (cls, path, n), reach=('h_big:end',), bounds='one container of %d elements' % n,
+                                kinds=kinds))
+    return out
+
+
 def rt_tasks(tier, kinds, entry='h_rt', classes=None):
     maxlen = 4 if tier == 'quick' else 8
     pads = padding_classes()
